@@ -66,10 +66,7 @@ def exprText (K : Closures) : Val → Text
        | some p => K.present p
        | none => level c (items K c xs))
     else []
-  | .cnd f c kw op ex =>
-    match f with
-    | .alias => unsupportedText
-    | _ => if condValid K c kw op ex then condAssemble K c kw op (exprText K ex) else []
+  | .cnd _ c kw op ex => if condValid K c kw op ex then condAssemble K c kw op (exprText K ex) else []
   | .leaf l =>
     match l.text with
     | some t => t
